@@ -1025,6 +1025,8 @@ def oracle(ctx, e, T, v, path, variant, cache, out, cls):
     """the property on the implementation, independent of the model"""
     ctx = Once(ctx)
     desc = describe(T, v, path, variant, cache)
+    if out.get('mutated'):
+        desc['caller_mutates_the_object_after_the_write'] = True
     col = COLNAME[T]
     dom = in_domain(T, v)
     vc = vclass(T, v)
@@ -1297,7 +1299,7 @@ def directed_mutable(ctx, e):
                     continue
                 ctx.case(('mutable', T, json.dumps(snap, sort_keys=True), path), kind='mutable/%s' % T)
                 out['mutated'] = True
-                oracle(ctx, e, T, snap, path + '+caller-mutates-the-object-afterwards', variant, cache, out, cls)
+                oracle(ctx, e, T, snap, path, variant, cache, out, cls)
     # a mutable default
     conn = e['conns'][True]
     if 'mutdef' not in _alt:
@@ -1562,6 +1564,8 @@ def run(ctx):
                 pass          # all three variants in rotation (the lazy one flushes with syncUpdate)
             elif path == 'loaded':
                 variant = 'lazy' if idx % 2 == 0 else VARIANTS[(idx + pi) % 3]
+            elif path in ('listener', 'listener-raises'):
+                pass          # all three variants in rotation
             elif path != 'lazy' and variant == 'lazy':
                 # eager paths on a lazy class only become visible after sync: covered by the 'lazy' path; use eager here
                 variant = 'eager'
@@ -1659,7 +1663,13 @@ def replay(case):
         def note(self, s):
             pass
     rec = Rec()
-    out, cls, obj = run_case(e, T, v, case['path'], case['variant'], case['cache'])
+    if case.get('caller_mutates_the_object_after_the_write'):
+        value = copy.deepcopy(v)
+        out, cls, obj = run_case(e, T, value, case['path'], case['variant'], case['cache'],
+                                 after_write=lambda: mutate_in_place(value))
+        out['mutated'] = True
+    else:
+        out, cls, obj = run_case(e, T, v, case['path'], case['variant'], case['cache'])
     oracle(rec, e, T, v, case['path'], case['variant'], case['cache'], out, cls)
     text = 'write: %s %s\nrows: %r\nreads: %r' % (out['write'], out.get('write_exc', ''), out['rows'], out['reads'])
     if 'first_flush' in out:
